@@ -166,7 +166,7 @@ classifiers = {
 
 
 def model_applies(case):
-    return "builtin" not in case and not sc.has_ctrl(case) and not sc.has_push_comp(case)
+    return "builtin" not in case and not sc.has_ctrl(case)
 
 
 def run_impl(case):
